@@ -874,3 +874,22 @@ M("C01.event_map_props_drops_extent", ["C01"], "core/src/event.rs",
             extent: None,
             tpl: self.tpl,
             props: map(self.props),""", "C01.builder")
+
+# ---- C20 entry points --------------------------------------------------------------------------------------------------
+M("C20.try_init_internal_reads_shared_handle", ["C20"], "src/setup.rs",
+  """        Some(Init {
+            rt: slot.get(),
+            emitter: *ambient.emitter(),
+            ctxt: *ambient.ctxt(),
+        })
+    }
+}""",
+  """        Some(Init {
+            rt: emit_core::runtime::shared_slot().get(),
+            emitter: *ambient.emitter(),
+            ctxt: *ambient.ctxt(),
+        })
+    }
+}""", "C20.R6:right-slot")
+M("C20.init_guard_zero_timeout", ["C20"], "src/setup.rs",
+  "        self.inner.blocking_flush(self.timeout);", "        self.inner.blocking_flush(Duration::ZERO);", "C20.R6:InitGuard")
